@@ -825,3 +825,36 @@ func StructuredCases() (bases [][]Tok, muts [][]Tok) {
 	}
 	return
 }
+
+// ArithWords: a fixed enumeration of VALID arithmetic expansions $((E)) over POSIX arithmetic operators:
+// every binary operator and the conditional operator applied to every combination of a small set of operands
+// (name, number, parenthesized, unary, binary, conditional, parenthesized assignment), i.e. every operator in
+// every operand position of every other. The shells accept all of them; so must the parser, in both variants.
+func ArithWords() []string {
+	ops := []string{"+", "-", "*", "/", "%", "<<", ">>", "<", "<=", ">", ">=", "==", "!=", "&", "^", "|", "&&", "||"}
+	asg := []string{"=", "+=", "-=", "*=", "/=", "%=", "<<=", ">>=", "&=", "^=", "|="}
+	sub := []string{"a", "1", "(a)", "-a", "!a", "~a", "a + 1", "a * b", "a ? 1 : b", "(a = 1)", "a < b", "a && b"}
+	seen := map[string]bool{}
+	var out []string
+	add := func(e string) {
+		if !seen[e] {
+			seen[e] = true
+			out = append(out, "$(("+e+"))")
+		}
+	}
+	for _, x := range sub {
+		add(x)
+		for _, y := range sub {
+			for _, op := range ops {
+				add(x + " " + op + " " + y)
+			}
+			for _, z := range sub {
+				add(x + " ? " + y + " : " + z)
+			}
+		}
+		for _, op := range asg {
+			add("a " + op + " " + x)
+		}
+	}
+	return out
+}
